@@ -18,7 +18,7 @@ class ContractDrift(Exception):
 
 
 class Obligation:
-    __slots__ = ("name", "kind", "hyps", "goal", "lineno", "note", "cover")
+    __slots__ = ("name", "kind", "hyps", "goal", "lineno", "note", "cover", "n_pc", "ax_defs")
 
     def __init__(self, name, kind, hyps, goal, lineno=0, note="", cover=False):
         self.name = name
@@ -28,6 +28,8 @@ class Obligation:
         self.lineno = lineno
         self.note = note
         self.cover = cover  # True: expected SAT (vacuity guard) instead of valid
+        self.n_pc = len(self.hyps)   # hyps[:n_pc] = path condition / assumptions; hyps[n_pc:] = definitional axioms (conservative extensions)
+        self.ax_defs = []            # for each definitional axiom: the name of the symbol it defines (None: unknown -> always kept)
 
 
 class State:
